@@ -35,7 +35,8 @@ type wParams struct {
 	WC     int           `json:"wc"`
 	Level  int           `json:"level"`
 	Fault  faultio.Fault `json:"fault"`
-	Oracle string        `json:"oracle"` // "c12", "c09", "c08", "c01"
+	Oracle string        `json:"oracle"`         // "c12", "c09", "c08", "c01"
+	Rand   bool          `json:"rand,omitempty"` // incompressible position-coded content
 }
 
 func scriptString(s []wop) string {
@@ -62,6 +63,21 @@ func parseScript(s string) []wop {
 
 // pattern is position coded: byte i identifies offset i (mod 251), so loss, duplication and
 // reordering of any region are visible.
+func content(rand bool, off, n int) []byte {
+	if !rand {
+		return pattern(off, n)
+	}
+	b := make([]byte, n)
+	for i := range b {
+		x := uint64(off+i)/8*0x9e3779b97f4a7c15 + 0x1234567
+		x ^= x >> 29
+		x *= 0xbf58476d1ce4e5b9
+		x ^= x >> 32
+		b[i] = byte(x >> (8 * uint((off+i)%8)))
+	}
+	return b
+}
+
 func pattern(off, n int) []byte {
 	b := make([]byte, n)
 	for i := range b {
@@ -100,7 +116,7 @@ func writerBody(pr wParams, r *wRun) func() {
 			r.events = append(r.events, wEvent{K: "call", Op: op.Op, N: op.N})
 			switch op.Op {
 			case "W":
-				n, err := w.Write(pattern(r.offered, op.N))
+				n, err := w.Write(content(pr.Rand, r.offered, op.N))
 				r.offered += op.N
 				r.events = append(r.events, wEvent{K: "ret", Op: "W", N: n, Err: err != nil})
 			case "F":
@@ -126,7 +142,7 @@ func writerCheck(pr wParams, r *wRun, ref *[]byte) func(o *vsched.Outcome) (stri
 		data := r.dev.Data
 		h := sha256.Sum256(data)
 		label = fmt.Sprintf("out=%s closeErr=%v", hex.EncodeToString(h[:6]), r.closeErr != nil)
-		expected := pattern(0, r.offered)
+		expected := content(pr.Rand, 0, r.offered)
 		faulty := pr.Fault.At != 0 && r.dev.Failed > 0
 		// ---- device content: whole members decoding to a prefix, at every write return
 		tornFrom := -1 // a partial (torn) transfer by the device itself is not the writer's doing
